@@ -329,10 +329,42 @@ func loopHeaderForms() []Form {
 	return out
 }
 
+// negationForms: every comparison under a negation, for three widths, booleans and strings,
+// as a value and as a condition (operands are equal on some of the input vectors); and the
+// string / byte-slice conversions in both directions with the source changed afterwards.
+func negationForms() []Form {
+	var out []Form
+	cmps := [][2]string{{"lt", "<"}, {"le", "<="}, {"gt", ">"}, {"ge", ">="}, {"eq", "=="}, {"ne", "!="}}
+	for _, c := range cmps {
+		out = append(out,
+			f("neg_u64_"+c[0], "rb = !(x "+c[1]+" y)"),
+			f("neg_u64_lit_"+c[0], "rb = !(x "+c[1]+" 1)"),
+			f("neg_u32_"+c[0], "rb = !(w "+c[1]+" K32)"),
+			f("neg_u8_"+c[0], "rb = !(c "+c[1]+" 127)"),
+			f("neg_cond_"+c[0], "if !(x "+c[1]+" y) {\n\tr = 1\n} else {\n\tr = 2\n}"),
+			f("neg_loopcond_"+c[0], "var ni uint64 = 0\nfor !(ni "+c[1]+" 2) && ni < 4 {\n\tni = ni + 1\n}\nr = ni"),
+			f("negneg_"+c[0], "rb = !(!(x "+c[1]+" y))"),
+		)
+	}
+	out = append(out,
+		f("neg_bool_eq", "rb = !(t == (x < y))"), f("neg_bool_ne", "rb = !(t != (x < y))"),
+		f("neg_str_eq", "rb = !(s == \"a\")"), f("neg_str_ne", "rb = !(s != \"\")"),
+		f("neg_field_cmp", "rb = !(sp.f < sv.in.h)"), f("neg_len_cmp", "rb = !(uint64(len(xs)) <= x)"),
+		// conversions between strings and byte slices copy
+		f("bytes_of_string_mutate", "bs := []byte(s + \"ab\")\nbs[0] = 90\nr8 = bs[0] + bs[1]\nrs = s"),
+		f("string_of_bytes_then_mutate", "bs := make([]byte, 2)\nbs[0] = 65\nst := string(bs)\nbs[0] = 66\nrs = st\nr8 = bs[0]"),
+		f("bytes_roundtrip_is_a_copy", "bs := make([]byte, 2)\nbs[0] = 7\ncp := []byte(string(bs))\ncp[0] = 9\nr8 = bs[0] + cp[0]*3"),
+		f("string_roundtrip", "rs = string([]byte(s)) + \"!\""),
+		f("len_of_bytes_of_string", "r = uint64(len([]byte(s)))"),
+		f("string_len_after_concat", "r = uint64(len(s + \"é\"))"),
+	)
+	return out
+}
+
 // CoreForms returns every core form.
 func CoreForms() []Form {
 	var out []Form
-	for _, g := range [][]Form{binopForms(), convForms(), assignForms(), dataForms(), callForms(), compoundForms(), sliceMatrixForms(), scopeMatrixForms(), loopHeaderForms()} {
+	for _, g := range [][]Form{binopForms(), convForms(), assignForms(), dataForms(), callForms(), compoundForms(), sliceMatrixForms(), scopeMatrixForms(), loopHeaderForms(), negationForms()} {
 		out = append(out, g...)
 	}
 	return out
